@@ -29,7 +29,16 @@ def mk_text(ref, n):
         s += FILL[(k * 7 + len(ref)) % len(FILL)]
         k += 1
     s = s[:n]
-    if ref.startswith("p") and n >= len(ref) + 3:
+    if ref.startswith("as") and n >= len(ref) + 8:
+        # account word with a ':stamp' suffix (name:timestamp:serial), no spaces
+        s = list(s)
+        s[n - 7] = ":"
+        s[n - 3] = ":"
+        for i in range(n - 6, n):
+            if s[i] != ":":
+                s[i] = "0123456789"[(i * 3 + len(ref)) % 10]
+        s = "".join(s)
+    elif ref.startswith("p") and n >= len(ref) + 3:
         i = len(ref) + 1
         s = s[:i] + " " + s[i + 1:]
     elif ref.startswith("sp") and n >= len(ref) + 4:
